@@ -20,7 +20,7 @@ LEVEL = "model_checking"
 RULE = ("E1: product of method x request body length x response body length x server SZX x client maximum SZX x mid-transfer "
         "reduction point (boundary lengths 0,1,15-17,31-33,1023-1025,1124/1125,2048/2049,3000) run to completion against the "
         "strict server (also one that states its own larger SZX in its 2.31s); every server misbehaviour x block position (wrong NUM, M on the final "
-        "ack, short block, ETag change/vanishing, skipped/stale block, M past the end, later block refused 4.08/5.03 or answered without Block2); E2: all schedules with <= K drops/duplications of the "
+        "ack, short block, ETag change/vanishing, skipped/stale block, M past the end, later block refused 4.08/5.03 or answered without Block2, empty non-final block); requests carry Content-Format / Accept / query and follow-ups must repeat them; E2: all schedules with <= K drops/duplications of the "
         "individual datagrams of 3-5 block transfers; distinct = distinct parameter tuple / schedule")
 ASSUMPTIONS = [
     "oracle: mcv/refpeer.RefBlockServer, written from RFC 7959 (offset contiguity, NUM*size, M flag, SZX monotonic)",
